@@ -11,6 +11,7 @@ mod nlc;
 mod width;
 mod ysrc;
 mod rng;
+mod total;
 mod util;
 
 use std::env;
@@ -31,6 +32,8 @@ fn main() {
         "lex" => lex::main(&args[2..]),
         "ctstep" => ct::main(&args[2..]),
         "ysrc" => ysrc::main(&args[2..]),
+        "total" => total::main(&args[2..]),
+        "total-child" => total::child_main(),
         "width" => width::main(&args[2..]),
         x => {
             eprintln!("unknown subcommand {}", x);
